@@ -290,10 +290,12 @@ Tags(p) == IF Mach(p, Devs) = Ideal(p) \/ Ideal(p) = "unspec" THEN {}
 (* what the harness re-checks on the data of the returned environment; all  *)
 (* numbers are bases in NODE units with their ulp offset                    *)
 BK(l, nu) == [b |-> Base(l, nu), k |-> l.k]
+SetToSeq(S) == CHOOSE f \in [1..Cardinality(S) -> S] : \A x \in S : \E i \in 1..Cardinality(S) : f[i] = x
+OblOpts(nu, cs) ==
+  LET os == SetToSeq(OptVals(cs)) IN
+  [o |-> "one_of", alts |-> [i \in 1..Len(os) |-> IF os[i].t = "str" THEN [s |-> os[i].s] ELSE BK(os[i], nu)]]
 OblOf(nu, c) ==
-  CASE c.c = "opts" -> [o |-> "one_of", alts |-> [i \in 1..Len(c.vals) |->
-                          IF c.vals[i].t = "str" THEN [s |-> c.vals[i].s] ELSE BK(c.vals[i], nu)]]
-    [] c.c = "cond" -> [o |-> "cond", join |-> c.join, atoms |-> [i \in 1..Len(c.atoms) |->
+  CASE c.c = "cond" -> [o |-> "cond", join |-> c.join, atoms |-> [i \in 1..Len(c.atoms) |->
                           LET a == c.atoms[i] IN
                           IF a.lit.t = "num" THEN [op |-> a.op, left |-> a.left, b |-> Base(a.lit, nu), k |-> a.lit.k]
                           ELSE [op |-> a.op, left |-> a.left, lit |-> a.lit]]]
@@ -302,7 +304,9 @@ ValOf(nu, v) == CASE v.t = "num" -> [o |-> "value", b |-> Base(v, nu), k |-> v.k
                   [] v.t = "arr" -> [o |-> "shape", shape |-> v.shape]
                   [] OTHER       -> [o |-> "value", lit |-> v]
 Obl(p) == LET f == Last(Assigned(p)) IN
-          <<ValOf(p.nu, f)>> \o [i \in 1..Len(p.cons) |-> OblOf(p.nu, p.cons[i])]
+          <<ValOf(p.nu, f)>>
+          \o (IF OptVals(p.cons) = {} THEN <<>> ELSE <<OblOpts(p.nu, p.cons)>>)
+          \o (LET cf == SelectSeq(p.cons, LAMBDA c : c.c # "opts") IN [i \in 1..Len(cf) |-> OblOf(p.nu, cf[i])])
           \o (IF IsArr(p) THEN <<[o |-> "bounds", dims |-> p.dims]>> ELSE <<>>)
 
 -----------------------------------------------------------------------------
@@ -321,6 +325,9 @@ Fine(l, nu) == \/ l.t = "none"
                \/ l.t = "num" /\ (l.k # 0 \/ (HasAlt2(nu) /\ l.u = Alt2(nu)) \/ ~(QEq(Base(l, nu), A) \/ QEq(Base(l, nu), B)))
                \/ l.t = "str" /\ l.s \notin CoarseStrs
 
+\* values and options of an int node are written as integer literals (0.003 km is not one)
+IntOK(ty, S) == IF ty = "int" THEN {l \in S : l.t # "num" \/ QIsInt(l.n)} ELSE S
+IntOKC(ty, S) == IF ty = "int" THEN {c \in S : c.c # "opts" \/ \A i \in 1..Len(c.vals) : QIsInt(c.vals[i].n)} ELSE S
 DefPool(ty, nu) ==
   CASE IsNum(ty)   -> {Num(b, nu, 0, nu) : b \in {A, B, Z}} \cup {Num(A, nu, k, nu) : k \in FineKs(ty)}
                       \cup (IF Rich THEN {None} ELSE {})
@@ -328,7 +335,7 @@ DefPool(ty, nu) ==
     [] ty = "bool" -> {Bool(TRUE), Bool(FALSE)}
 ModUnits(nu) == {""} \cup Range(AltSeq(nu))
 ModPool(ty, nu) ==
-  CASE IsNum(ty)   -> {Num(b, u, 0, nu) : b \in {A, B}, u \in ModUnits(nu)}
+  CASE IsNum(ty)   -> IntOK(ty, {Num(b, u, 0, nu) : b \in {A, B}, u \in ModUnits(nu)})
                       \cup {Num(A, u, k, nu) : k \in FineKs(ty), u \in {""} \cup (IF HasAlt(nu) THEN {Alt1(nu)} ELSE {})}
                       \cup {Num(Z, "", 0, nu), None}
     [] ty = "str"  -> {Str(s) : s \in AllStrs} \cup (IF Rich THEN {None} ELSE {})
@@ -385,9 +392,9 @@ BoolPool2 == {One(At("!=", "self", Bool(TRUE))), One(At("==", "self", Bool(FALSE
 BoolPool1 == {Two("or", At("==", "self", Bool(TRUE)), At("==", "self", Bool(FALSE))),
               Two("and", At("!=", "self", Bool(FALSE)), At("==", "lit", Bool(TRUE)))}
 
-Pool3(ty, nu) == CASE IsNum(ty) -> NumPool3(ty, nu) [] ty = "str" -> StrPool3 [] OTHER -> BoolPool3
-Pool2(ty, nu) == CASE IsNum(ty) -> NumPool2(ty, nu) [] ty = "str" -> StrPool2 [] OTHER -> BoolPool2
-Pool1(ty, nu) == CASE IsNum(ty) -> NumPool1(ty, nu) [] ty = "str" -> StrPool1 [] OTHER -> BoolPool1
+Pool3(ty, nu) == CASE IsNum(ty) -> IntOKC(ty, NumPool3(ty, nu)) [] ty = "str" -> StrPool3 [] OTHER -> BoolPool3
+Pool2(ty, nu) == CASE IsNum(ty) -> IntOKC(ty, NumPool2(ty, nu)) [] ty = "str" -> StrPool2 [] OTHER -> BoolPool2
+Pool1(ty, nu) == CASE IsNum(ty) -> IntOKC(ty, NumPool1(ty, nu)) [] ty = "str" -> StrPool1 [] OTHER -> BoolPool1
 Lvl(c, ty, nu) == IF c \in Pool3(ty, nu) THEN 3 ELSE IF c \in Pool2(ty, nu) THEN 2 ELSE 1
 \* constant-level tables (TLC evaluates them once): per family the pool of <<constraint, level>> pairs
 \* and the value pools
